@@ -387,6 +387,26 @@ def _run(sim, case, r):
                 r.bad('C18/local-vector-changed-by-restart', f'{local_now()} != {model}')
                 return
             trace.append('T')
+        elif k == 'start_again':
+            # start() on an instance that is already running (e.g. called from an after-connect hook on every reconnect): it is
+            # refused, and a refused call changes nothing
+            if not inst.running:
+                continue
+            try:
+                sim.vl.call(inst.start, sim.app)
+                r.bad('C18/start-on-running-instance-accepted', '')
+                return
+            except RuntimeError:
+                pass
+            except Exception as e:
+                r.bad(f'C18/start-on-running-instance-raised/{exc_site(e)}', repr(e)[:200])
+                return
+            sim.vl.settle()
+            flags.add('refused-start')
+            if local_now() != nz(model):
+                r.bad('C18/local-vector-changed-by-refused-start', f'{local_now()} != {model}')
+                return
+            trace.append('s')
         elif k == 'adv':
             now = sim.vl.clock.t
             target = inst.next_sync_timing - svs_sync.time.time() if inst.next_sync_timing else 0
@@ -457,8 +477,9 @@ def _ops():
     restart = st.fixed_dictionaries({'op': st.just('restart'), 'gap': st.booleans()})
     adv = st.fixed_dictionaries({'op': st.just('adv'), 'how': st.sampled_from(['0', '1ms', 'before', 'at', 'after', 'after']),
                                  'pub_on_emit': st.sampled_from([False, False, False, True])})
-    free = st.lists(st.one_of(recv, recv, recv, recv, publish, publish, adv, adv, adv, restart), min_size=2, max_size=25)
-    anyop = st.one_of(recv, publish, adv, restart)
+    again = st.just({'op': 'start_again'})
+    free = st.lists(st.one_of(recv, recv, recv, recv, publish, publish, adv, adv, adv, restart, again), min_size=2, max_size=25)
+    anyop = st.one_of(recv, publish, adv, restart, again)
 
     @st.composite
     def template(draw):
